@@ -537,6 +537,19 @@ Section ChunkVerify.
                 let (xs, w2) := get_many s r w1 in (x :: xs, w2)
     end.
 
+  (* Requests interleaved with arbitrary changes of the world made by somebody else (an object
+     is damaged after it was read successfully, restored, replaced ...).  The stores of the
+     model keep nothing between calls except what is in the world: every call verifies what it
+     reads NOW. *)
+  Fixpoint get_history (s : stack) (steps : list ((world -> world) * id)) (w : world)
+    : list (res chunk) * world :=
+    match steps with
+    | [] => ([], w)
+    | (change, i) :: r =>
+        let (x, w1) := get s i (change w) in
+        let (xs, w2) := get_history s r w1 in (x :: xs, w2)
+    end.
+
   (* ---------- which stacks verify ---------- *)
 
   Fixpoint wverifying (l : wstack) : bool :=
